@@ -8,7 +8,7 @@
 (***************************************************************************)
 EXTENDS Api, Printer, Json
 
-CONSTANTS MaxCalls, Pre, Fail2, Sch
+CONSTANTS MaxCalls, Pre, Fail2, Rw2, Sch
 
 VARIABLES root, depth, nv2, hist, last
 
@@ -26,7 +26,7 @@ ApiSchema ==
      DSec("m", {"MULTI"}, << DInt("x", "5") >>),
      DSec("sec", {}, << DInt("x", "5"), DIntList("l", <<>>) >>),
      DInt("vi", "1"), DStr("vs", "q"),
-     DBool("fn", "true") >>
+     DBool("fn", "true"), DFloat("vf", "1.5") >>
   ELSE
   << DInt("i", "7"), DStr("s", "d"), DIntList("l", <<"1","2">>), DStrList("sl", <<>>),
      DBool("b", "false"), DFloat("f", "1.5"),
@@ -34,7 +34,7 @@ ApiSchema ==
      DSec("m", {"MULTI"}, << DInt("x", "5") >>),
      DSec("sec", {}, << DInt("x", "5"), DIntList("l", <<>>) >>),
      WithCb(DInt("vi", "1"), {"valid2"}), WithCb(DStr("vs", "q"), {"valid2"}),
-     DFunc("fn", "user") >>
+     DFunc("fn", "user"), WithCb(DFloat("vf", "1.5"), {"valid2"}) >>
 
 (* optional text parsed before the calls (Pre = 1): populates sections and pointers *)
 PreToks ==
@@ -47,7 +47,7 @@ PreToks ==
 InitRoot == MkSec(Null, InitOpts(ApiSchema))
 PreRun == PRun(PInit(InitRoot, ParseCfg(FALSE, TRUE, FALSE, 0, 0, 0), "buf", FALSE, 0, 0, 0), PreToks)
 
-Env == [nocase |-> FALSE, nv2 |-> nv2, fail2 |-> Fail2, rw2 |-> 0]
+Env == [nocase |-> FALSE, nv2 |-> nv2, fail2 |-> Fail2, rw2 |-> Rw2]
 
 T1 == <<[oi |-> 7, ii |-> 1]>>      \* first instance of section t
 SEC == <<[oi |-> 9, ii |-> 1]>>     \* the single section
@@ -85,7 +85,8 @@ Calls ==
     Call("rmtsec", <<>>, "m", 0, "a", <<>>),
     Call("setint", T1, "x", 0, "8", <<>>),      Call("addlist", T1, "tl", 0, "", <<"z">>),
     Call("setint", SEC, "x", 0, "6", <<>>),     Call("addlist", SEC, "l", 0, "", <<"1">>),
-    Call("setint", <<>>, "vi", 0, "4", <<>>),   Call("setstr", <<>>, "vs", 0, "r", <<>>) }
+    Call("setint", <<>>, "vi", 0, "4", <<>>),   Call("setstr", <<>>, "vs", 0, "r", <<>>),
+    Call("setfloat", <<>>, "vf", 0, "2.25", <<>>) }
   \cup (IF Sch = 2
           THEN { Call("setstr", <<>>, "s", 0, "a\"b\\c", <<>>), Call("setstr", <<>>, "s", 0, "${HOME}", <<>>),
                  Call("setstr", <<>>, "s", 0, "", <<>>),
@@ -187,7 +188,7 @@ P_C05_RoundTrip ==
 (* export of transitions for leg A *)
 (* the full prediction is exported for the last call only: every earlier   *)
 (* call of the path is the last call of its own behaviour                  *)
-EmitT == PrintT(<<"BEH", ToJson([pre |-> Pre, fail2 |-> Fail2,
+EmitT == PrintT(<<"BEH", ToJson([pre |-> Pre, fail2 |-> Fail2, rw2 |-> Rw2,
             printed |-> IF Sch = 2 THEN [i \in 1..Len(PrintCfg(root', 0)) |-> PrintCfg(root', 0)[i].text] ELSE <<>>,
             calls |-> [i \in 1..Len(hist') |->
                          IF i = Len(hist') THEN hist'[i]
